@@ -5,8 +5,10 @@
 -/
 import ModVerif.Spec.ZipSpec
 import ModVerif.Proofs.ZipUnzip
+import ModVerif.Proofs.ZipBUnzip
+import ModVerif.Proofs.ZipBCfp
 namespace ModVerif.Props.C12
-open ModVerif ModVerif.PathClean ModVerif.Zip ModVerif.ZipSpec ModVerif.Proofs.Zip
+open ModVerif ModVerif.PathClean ModVerif.Zip ModVerif.ZipSpec ModVerif.Proofs.Zip ModVerif.Proofs.ZipB
 
 /-- Nothing is written before the zip check has accepted the archive: if extraction performs any
     effect at all, then `checkZip` returned a report without error (and the target was usable). -/
@@ -55,6 +57,150 @@ theorem unzip_effects_shape (E : Env) (dir : Bytes) (t : Target) (mpath mvers : 
     · exact Or.inr (hmem e he)
 
 
+/-! ### confinement, the documented restrictions, success ⇔ acceptance, the extracted tree
+
+Vocabulary (Proofs/ZipB*.lean): `fileEntries pfx es` = the entries `Unzip` extracts (name below the prefix
+non-empty and without trailing slash); `stripName pfx e` = the name below the prefix with one trailing
+slash removed; `regsOf pfx e` = the (path, is-directory) pairs `collisionChecker.check` registers for the
+entry: the stripped name, then `path.Dir` of it repeatedly until `.`; `Compatible toFold x y` = equal
+folded paths only for the same path registered as a directory both times; `NoClash` = the same statement
+on the element lists of two entries; `expectedFx dir pfx fs` = for every `f` in `fs`, in order,
+`mkdirAll (Dir dst)` then `createExcl dst (some f.content)` with `dst = Join(dir, name below the prefix)`. -/
+
+/-- The assumption `CfpSound` (an accepted path has no empty, `.` or `..` element) holds for the model of
+    `module.CheckFilePath` that the driver plugs in (and that Props/C06 proves equivalent to the
+    documented rules), whatever `unicode.IsLetter` is. -/
+theorem cfpSound_checkFilePath (isLetter : Nat → Bool) : CfpSound (cfpOf isLetter) :=
+  ModVerif.Proofs.ZipB.cfpSound_checkFilePath isLetter
+
+/-- Nothing is ever created outside the target directory: every effect of extraction — success or
+    failure, any entry list with arbitrary byte-string names (`..`, absolute, backslashes, empty) — has a
+    path under `dir` (equivalently under `Clean(dir)`): same rootedness, the cleaned elements of `dir` are
+    a prefix of the cleaned elements of the path, and none of the remaining elements is `..`. -/
+theorem unzip_confined (E : Env) (hE : CfpSound E.cfp) (dir : Bytes) (t : Target) (mpath mvers : Bytes)
+    (zs : Nat) (es : List Entry) :
+    ∀ e ∈ (unzip E dir t mpath mvers zs es).effects, IsUnder dir e.path ∧ IsUnder (pathClean dir) e.path := by
+  intro e he
+  have h := ModVerif.Proofs.ZipB.unzip_confined E hE dir t mpath mvers zs es e he
+  exact ⟨h, (isUnder_clean_iff dir e.path).mpr h⟩
+
+/-- Acceptance by the zip check implies every documented restriction: the module is valid and the
+    archive is at most `MaxZipFile` bytes; every entry name starts with `<module>@<version>/`, and what
+    follows is empty or — after removing one trailing slash — a clean path accepted by `CheckFilePath`;
+    for every file entry: a name whose base is `go.mod` in any case is exactly `go.mod` (root, lower case),
+    the declared size is non-negative as `int64` (so it equals the unsigned value when that is below 2^64),
+    `go.mod` and `LICENSE` are at most 16 MiB; the declared sizes of the file entries sum to at most
+    `MaxZipFile`; the valid list is the file entries; everything the collision checker registered (every
+    entry and all its parent directories) is pairwise compatible — no two different paths with the same
+    case-folded form, no path both file and directory, no file twice — also in the readable form
+    `NoClash` on element prefixes. -/
+theorem checkZip_ok_spec (E : Env) (mpath mvers : Bytes) (zs : Nat) (es : List Entry) (cf : CheckedFiles)
+    (h : checkZip E mpath mvers zs es = .ok cf) (he : cf.err = none) :
+    E.modOK mpath mvers = true ∧ zs ≤ MaxZipFile ∧
+    (∀ e ∈ es, zipPrefix mpath mvers <+: e.name ∧
+      (relName (zipPrefix mpath mvers) e ≠ [] →
+        pathClean (stripName (zipPrefix mpath mvers) e) = stripName (zipPrefix mpath mvers) e ∧
+        E.cfp (stripName (zipPrefix mpath mvers) e) = true)) ∧
+    (∀ e ∈ fileEntries (zipPrefix mpath mvers) es,
+      (equalFoldGoMod (pathBase (relName (zipPrefix mpath mvers) e)) = true →
+        relName (zipPrefix mpath mvers) e = goModName) ∧
+      0 ≤ int64OfU64 e.declSize ∧ (e.declSize < 2 ^ 64 → int64OfU64 e.declSize = e.declSize) ∧
+      (relName (zipPrefix mpath mvers) e = goModName → int64OfU64 e.declSize ≤ MaxGoMod) ∧
+      (relName (zipPrefix mpath mvers) e = licenseName → int64OfU64 e.declSize ≤ MaxLICENSE)) ∧
+    ((fileEntries (zipPrefix mpath mvers) es).map (fun e => int64OfU64 e.declSize)).sum ≤ MaxZipFile ∧
+    cf.valid = (fileEntries (zipPrefix mpath mvers) es).map (·.name) ∧
+    (es.flatMap (regsOf (zipPrefix mpath mvers))).Pairwise (Compatible E.toFold) ∧
+    (CfpSound E.cfp → es.Pairwise (NoClash E (zipPrefix mpath mvers))) := by
+  obtain ⟨h1, h2, h3, h4, h5, h6, h7⟩ := ModVerif.Proofs.ZipB.checkZip_ok_spec E mpath mvers zs es cf h he
+  refine ⟨h1, h2, ?_, ?_, h5, h4, h6, h7⟩
+  · intro e hm
+    have ok := h3 e hm
+    refine ⟨?_, fun hne => ⟨ok.clean hne, ok.cfp hne⟩⟩
+    have : ∀ (a b : Bytes), isPrefixOfB a b = true → a <+: b := by
+      intro a
+      induction a with
+      | nil => intro b _; exact List.nil_prefix
+      | cons x a ih =>
+        intro b hb
+        cases b with
+        | nil => simp [isPrefixOfB] at hb
+        | cons y b =>
+          simp only [isPrefixOfB, Bool.and_eq_true, beq_iff_eq] at hb
+          rw [hb.1]
+          exact (List.prefix_cons_inj y).mpr (ih b hb.2)
+    exact this _ _ ok.hasPrefix
+  · intro e hm
+    have hmem := List.mem_filter.mp hm
+    have hsk : skipEntry (zipPrefix mpath mvers) e = false := by simpa using hmem.2
+    have ok := h3 e hmem.1
+    refine ⟨ok.goMod hsk, ok.nonneg hsk, ?_, ok.goModSize hsk, ok.licenseSize hsk⟩
+    intro hlt
+    have hnn := ok.nonneg hsk
+    unfold szOf int64OfU64 at hnn
+    unfold int64OfU64
+    split
+    · rfl
+    · rename_i hge
+      rw [if_neg hge] at hnn
+      omega
+
+/-- Extraction succeeds exactly when the zip check accepts (honest sizes, target missing or an empty
+    directory).  PARTIAL with respect to the statement "for every target directory string": the
+    hypothesis `hdir` asks that `dir` is empty, clean, or written without `..` elements.  It cannot be
+    dropped: for `dir = x/y/../..` `MkdirAll(dir)` creates `x` on its way, and an accepted archive with
+    the file `x` then fails with "file exists" (see the witness below; the real `zip.Unzip` behaves the
+    same).  `→` needs none of the hypotheses (`unzip_ok_implies_checkZip`). -/
+theorem unzip_ok_iff_partial (E : Env) (hE : CfpSound E.cfp) (dir : Bytes)
+    (hdir : dir = [] ∨ pathClean dir = dir ∨ ([46, 46] : Bytes) ∉ splitOn 47 dir) (t : Target)
+    (ht : t = .missing ∨ t = .emptyDir) (mpath mvers : Bytes) (zs : Nat) (es : List Entry)
+    (hon : HonestEntries es) :
+    (unzip E dir t mpath mvers zs es).err = none ↔
+      ∃ cf, checkZip E mpath mvers zs es = .ok cf ∧ cf.err = none := by
+  constructor
+  · exact fun h => (unzip_ok_implies_checkZip E dir t mpath mvers zs es h).1
+  · rintro ⟨cf, h, he⟩
+    have hsane : DirSane dir := by
+      rcases hdir with rfl | hd | hd
+      · exact dirSane_nil
+      · exact dirSane_clean hd
+      · exact dirSane_noDotDot hd
+    rw [unzip_accepts E hE dir hsane t mpath mvers zs es cf ht hon h he]
+
+/-- Lying sizes: success implies actual = declared for every extracted entry
+    (`unzip_ok_implies_checkZip`); conversely, after acceptance the extraction fails exactly at the first
+    file entry whose content length differs from its declared size, with the size error, after having
+    performed the complete effects of the earlier file entries, `MkdirAll(Dir(dst))` and the creation of
+    `dst` (content unspecified). -/
+theorem unzip_size_mismatch (E : Env) (hE : CfpSound E.cfp) (dir : Bytes)
+    (hdir : dir = [] ∨ pathClean dir = dir ∨ ([46, 46] : Bytes) ∉ splitOn 47 dir) (t : Target)
+    (ht : t = .missing ∨ t = .emptyDir) (mpath mvers : Bytes) (zs : Nat) (pre post : List Entry) (zf : Entry)
+    (cf : CheckedFiles) (hon : HonestEntries pre)
+    (hzs : skipEntry (zipPrefix mpath mvers) zf = false) (hlie : zf.content.length ≠ zf.declSize)
+    (h : checkZip E mpath mvers zs (pre ++ zf :: post) = .ok cf) (he : cf.err = none) :
+    unzip E dir t mpath mvers zs (pre ++ zf :: post) =
+      ⟨.mkdirAll dir :: expectedFx dir (zipPrefix mpath mvers) (fileEntries (zipPrefix mpath mvers) pre) ++
+        [.mkdirAll (pathDir (dstOf dir (zipPrefix mpath mvers) zf)),
+         .createExcl (dstOf dir (zipPrefix mpath mvers) zf) none], some .contentSize⟩ := by
+  have hsane : DirSane dir := by
+    rcases hdir with rfl | hd | hd
+    · exact dirSane_nil
+    · exact dirSane_clean hd
+    · exact dirSane_noDotDot hd
+  exact unzip_first_liar E hE dir hsane t mpath mvers zs pre post zf cf ht hon hzs hlie h he
+
+/-- On success the extracted tree equals the entries: the effects are the creation of the target and then,
+    for every file entry in archive order, `MkdirAll(Dir(dst))` and the exclusive creation of
+    `dst = Join(dir, name)` with the entry's complete content; the created files are the destinations of the
+    file entries, and no destination occurs twice. -/
+theorem unzip_tree_eq_entries (E : Env) (dir : Bytes) (t : Target) (mpath mvers : Bytes) (zs : Nat)
+    (es : List Entry) (h : (unzip E dir t mpath mvers zs es).err = none) :
+    (unzip E dir t mpath mvers zs es).effects =
+      .mkdirAll dir :: expectedFx dir (zipPrefix mpath mvers) (fileEntries (zipPrefix mpath mvers) es) ∧
+    createdFiles (unzip E dir t mpath mvers zs es).effects =
+      (fileEntries (zipPrefix mpath mvers) es).map (dstOf dir (zipPrefix mpath mvers)) ∧
+    ((fileEntries (zipPrefix mpath mvers) es).map (dstOf dir (zipPrefix mpath mvers))).Nodup :=
+  unzip_exact E dir t mpath mvers zs es h
+
 /-! ### non-vacuity and the documented escapes -/
 
 def exEnv : Env :=
@@ -83,6 +229,71 @@ example : (unzip exEnv (B "t") .missing (B "m") (B "v1") 100 [⟨B "m@v1/a.go", 
 
 /-- a declared size of 2^64-1 is negative as int64 and is a size error -/
 example : (checkZip exEnv (B "m") (B "v1") 100 [⟨B "m@v1/a.go", 2 ^ 64 - 1, B "x"⟩]).toOption.map (·.err) = some (some .size) := by
+  decide +kernel
+
+/-! ### non-vacuity of the hypotheses of the theorems above -/
+
+/-- the example environment satisfies `CfpSound` -/
+theorem exEnv_cfpSound : CfpSound exEnv.cfp := by
+  intro p hp c hc
+  have h2 : ((splitOn 47 p).all (fun c => c != [] && c != [46] && c != [46, 46])) = true := by
+    simp only [exEnv, Bool.and_eq_true] at hp; exact hp.2
+  have := List.all_eq_true.mp h2 c hc
+  simp at this
+  exact ⟨this.1.1, this.1.2, this.2⟩
+
+theorem accepted_of_toOption {E : Env} {m v : Bytes} {zs : Nat} {es : List Entry}
+    (h : (checkZip E m v zs es).toOption.map (·.err) = some none) :
+    ∃ cf, checkZip E m v zs es = .ok cf ∧ cf.err = none := by
+  cases hc : checkZip E m v zs es with
+  | error e => rw [hc] at h; cases h
+  | ok cf => rw [hc] at h; exact ⟨cf, rfl, by simpa [Except.toOption] using h⟩
+
+/-- the example archive is accepted (hypotheses of `checkZip_ok_spec`) -/
+theorem exEntries_accepted : ∃ cf, checkZip exEnv (B "m") (B "v1") 100 exEntries = .ok cf ∧ cf.err = none :=
+  accepted_of_toOption (by decide +kernel)
+
+theorem exEntries_honest : HonestEntries exEntries := by unfold HonestEntries; decide +kernel
+
+/-- `unzip_confined` on the example (effects are not empty, see above) -/
+example : ∀ e ∈ (unzip exEnv (B "t") .missing (B "m") (B "v1") 100 exEntries).effects, IsUnder (B "t") e.path :=
+  fun e he => (unzip_confined exEnv exEnv_cfpSound _ _ _ _ _ _ e he).1
+
+/-- `checkZip_ok_spec` on the example: the three entries do not clash -/
+example : exEntries.Pairwise (NoClash exEnv (zipPrefix (B "m") (B "v1"))) := by
+  obtain ⟨cf, h, he⟩ := exEntries_accepted
+  exact (checkZip_ok_spec exEnv _ _ _ _ cf h he).2.2.2.2.2.2.2 exEnv_cfpSound
+
+/-- `unzip_ok_iff_partial` on the example: all hypotheses hold (clean target `t`) -/
+example : (unzip exEnv (B "t") .missing (B "m") (B "v1") 100 exEntries).err = none :=
+  (unzip_ok_iff_partial exEnv exEnv_cfpSound (B "t") (Or.inr (Or.inl (by decide +kernel))) .missing (Or.inl rfl)
+    (B "m") (B "v1") 100 exEntries exEntries_honest).mpr exEntries_accepted
+
+/-- the hypothesis on `dir` cannot be dropped: accepted archive, empty target, honest sizes — and
+    extraction into `x/y/../..` fails because `MkdirAll` created `x` -/
+example : (unzip exEnv (B "x/y/../..") .emptyDir (B "m") (B "v1") 100 [⟨B "m@v1/x", 1, B "a"⟩]).err = some .exists ∧
+    (checkZip exEnv (B "m") (B "v1") 100 [⟨B "m@v1/x", 1, B "a"⟩]).toOption.map (·.err) = some none := by
+  decide +kernel
+
+/-- `unzip_size_mismatch` on an archive whose second file lies about its size -/
+example :
+    (unzip exEnv (B "t") .missing (B "m") (B "v1") 100
+      ([⟨B "m@v1/go.mod", 2, B "hi"⟩] ++ ⟨B "m@v1/a.go", 2, B "x"⟩ :: [])).effects =
+      [.mkdirAll (B "t"), .mkdirAll (B "t"), .createExcl (B "t/go.mod") (some (B "hi")),
+       .mkdirAll (B "t"), .createExcl (B "t/a.go") none] ∧
+    (unzip exEnv (B "t") .missing (B "m") (B "v1") 100
+      ([⟨B "m@v1/go.mod", 2, B "hi"⟩] ++ ⟨B "m@v1/a.go", 2, B "x"⟩ :: [])).err = some .contentSize := by
+  obtain ⟨cf, h, he⟩ := accepted_of_toOption (E := exEnv) (m := B "m") (v := B "v1") (zs := 100)
+    (es := [⟨B "m@v1/go.mod", 2, B "hi"⟩] ++ ⟨B "m@v1/a.go", 2, B "x"⟩ :: []) (by decide +kernel)
+  rw [unzip_size_mismatch exEnv exEnv_cfpSound (B "t") (Or.inr (Or.inl (by decide +kernel))) .missing (Or.inl rfl)
+    (B "m") (B "v1") 100 _ _ _ cf (by unfold HonestEntries; decide +kernel) (by decide +kernel)
+    (by decide +kernel) h he]
+  exact ⟨by decide +kernel, rfl⟩
+
+/-- `unzip_tree_eq_entries` on the example: two files, two distinct destinations -/
+example : createdFiles (unzip exEnv (B "t") .missing (B "m") (B "v1") 100 exEntries).effects =
+    [B "t/go.mod", B "t/a/b.go"] := by
+  rw [(unzip_tree_eq_entries exEnv (B "t") .missing (B "m") (B "v1") 100 exEntries (by decide +kernel)).2.1]
   decide +kernel
 
 end ModVerif.Props.C12
